@@ -35,6 +35,7 @@ type c11Scenario struct {
 	Type      string      `json:"type"`                 // "" | VOD | EVENT
 	URIStyle  string      `json:"uri_style"`            // rel | subdir | up | abs | query
 	Range     string      `json:"range"`                // none | explicit | nostart | continued | mixed
+	DiscSeq   bool        `json:"disc_seq,omitempty"`   // playlists carry EXT-X-DISCONTINUITY-SEQUENCE (unrelated to the media sequence)
 	PLQuery   bool        `json:"pl_query,omitempty"`   // playlist URLs carry a query string (token)
 	RangeMask int         `json:"range_mask,omitempty"` // mixed: bit (segment index % 16) set = that sub-range is written without offset
 	MSNBase   int         `json:"msn_base"`
@@ -117,9 +118,10 @@ func drawC11(t *rapid.T) c11Scenario {
 	sc.Container = rapid.SampledFrom([]string{"fmp4", "mpegts", "fmp4"}).Draw(t, "container")
 	sc.Total = rapid.IntRange(8, 24).Draw(t, "total")
 	sc.Type = rapid.SampledFrom([]string{"", "", "VOD", "EVENT"}).Draw(t, "type")
-	sc.URIStyle = rapid.SampledFrom([]string{"rel", "rel", "subdir", "up", "abs", "query"}).Draw(t, "uristyle")
+	sc.URIStyle = rapid.SampledFrom([]string{"rel", "rel", "subdir", "up", "abs", "query", "netpath"}).Draw(t, "uristyle")
 	sc.Range = rapid.SampledFrom([]string{"none", "none", "explicit", "nostart", "continued", "mixed"}).Draw(t, "range")
 	sc.PLQuery = rapid.IntRange(0, 3).Draw(t, "plQuery") == 0
+	sc.DiscSeq = rapid.IntRange(0, 3).Draw(t, "discSeq") == 0
 	if sc.Range == "mixed" {
 		sc.RangeMask = rapid.IntRange(1, 1<<16-1).Draw(t, "rangeMask")
 	}
@@ -271,6 +273,9 @@ func execC11(sc c11Scenario) core.Outcome {
 			return "../other/" + name
 		case "abs":
 			return "http://cdn.test/x/y/" + name
+		case "netpath":
+			// network-path reference (RFC 3986 4.2): another host, scheme of the playlist URL
+			return "//cdn.test/x/y/" + name
 		case "query":
 			return name + "?tok=1&s=" + name[:1]
 		}
@@ -324,6 +329,9 @@ func execC11(sc c11Scenario) core.Outcome {
 		var texts []string
 		for _, sn := range st.Snaps {
 			var extra []string
+			if sc.DiscSeq {
+				extra = append(extra, "#EXT-X-DISCONTINUITY-SEQUENCE:1000003")
+			}
 			if sc.Type == "EVENT" {
 				extra = append(extra, "#EXT-X-PLAYLIST-TYPE:EVENT")
 			}
@@ -477,7 +485,7 @@ func execC11(sc c11Scenario) core.Outcome {
 			if !strings.HasPrefix(name, prefix) {
 				continue
 			}
-			full := "http://" + q.Host + "/" + q.URL
+			full := q.Scheme + "://" + q.Host + "/" + q.URL
 			got = append(got, c11Req{full, q.Range})
 		}
 		want := exps[pi].reqs
